@@ -66,10 +66,6 @@ enum { LOGL_DEBUG = 1, LOGL_INFO = 3, LOGL_NOTICE = 5, LOGL_ERROR = 7, LOGL_FATA
 C_KEYWORDS = {"if", "for", "while", "switch", "return", "sizeof", "do", "else", "LOGP", "LOGP_LCHAND", "LOGP_LCHANC", "OSMO_ASSERT"}
 
 
-def gen(run):
-    return None
-
-
 # ------------------------------------------------------------------------------------------
 # extraction of the functions under test
 
@@ -440,6 +436,7 @@ def search(run, corr, deep):
             if bf:
                 cases.append((bf[0], bf[1], w >> 25))
     cases += oracle_cases(run, deep)
+    cases = list(dict.fromkeys(cases))
     found = 0
     stats = {"ok": 0, "fail": 0}
     for res in check_cases(exe, cases):
